@@ -1,11 +1,11 @@
 import WebPkg.Proofs.SH
+import WebPkg.Proofs.SHGrammar
 /-
   C16 — Structured headers: serialize and parse are inverse; parser follows grammar.
   Model: Model/StructuredHeader.lean (parser.go, writer.go).  Lemmas: Proofs/SH.lean.
   Go's `Parameters` is a map (distinct keys); the model takes a key list with distinct keys and
   `normPI` orders it by key (what the parser returns is compared up to that order in the harness too).
-  Not yet proved here: equivalence of the parser with an independent inductive grammar relation
-  (`Derives`); that half of the property is supported by the exhaustive small-string correspondence only.
+  Spec: Spec/SH.lean — the implemented subset of the draft-09 ABNF as inductive derivation relations.
 -/
 namespace WebPkg.C16
 open WebPkg.SH
@@ -66,6 +66,17 @@ theorem parse_serialize_parse_ll (s : Bytes) (ll : List (List Item)) (h : parseL
 /-- T5: integers: `ParseInt (FormatInt z) = z` over the whole int64 range. -/
 theorem int_roundtrip (z : Int) (h1 : -(2:Int)^63 ≤ z) (h2 : z < (2:Int)^63) : parseInt64 (formatInt z) = some z :=
   SH.parseInt64_formatInt z h1 h2
+
+/-- T6 (grammar): on arbitrary input strings the parsers accept **exactly** the grammar of Spec/SH.lean
+    and return the value the derivation denotes (both directions, every string). -/
+theorem parser_grammar_pl (s : Bytes) (pl : List PI) : parseParameterisedList s = some pl ↔ Spec.SH.PLD s pl :=
+  SH.parseParameterisedList_iff s pl
+
+theorem parser_grammar_ll (s : Bytes) (ll : List (List Item)) : parseListOfLists s = some ll ↔ Spec.SH.LLD s ll :=
+  SH.parseListOfLists_iff s ll
+
+theorem parser_grammar_item (inp : Bytes) (i : Item) (rest : Bytes) (h : parseItem inp = some (i, rest)) :
+    ∃ ie, inp = ie ++ rest ∧ Spec.SH.ItemD ie i := SH.parseItem_sound inp i rest h
 
 /-! non-vacuity -/
 example : validItem (.int (-(2:Int)^63)) = true := by decide
